@@ -1,2 +1,3 @@
 -- family frontend: C41 C42 C43 C44.  Everything listed here must build: it is part of `lake build`.
 import Thanos.Driver.Frontend
+import Thanos.Props.C41
